@@ -776,7 +776,10 @@ def max_anchor(evs):
 
 
 import re as _re
-KNOWN_EMPTYKEY = _re.compile(r"\{[\s\S]*[\[,]\s*:[\s\],]")
+# a '{' or an explicit-key '?' (both set the scanner's flow_mapping_started flag, which nothing clears), and later a
+# flow-sequence entry that starts with ':'
+KNOWN_EMPTYKEY = _re.compile(r"(\{|\?[ \t\r\n])[\s\S]*[\[,]\s*:[\s\],]")
+KNOWN_SETTER = _re.compile(r"(\{|\?[ \t\r\n])[\s\S]*\[")      # a flag setter and, later, a flow sequence
 
 
 def c15_known_header(a):
@@ -815,6 +818,7 @@ def check_C15(tier, seed):
         kf = set()
         for b in ("str", "iter"):
             got = run_hx(["events", b], tl)
+            failing = []
             for j, parts in enumerate(combos):
                 res.evaluations += 1
                 exp = ["SS"]
@@ -827,14 +831,53 @@ def check_C15(tier, seed):
                 exp.append("SE")
                 gevs, gfin = split_line(got[j])
                 g = [ev_body_renum(e, 0) for e in gevs]
-                if (gfin != "OK" or g != exp) and known and KNOWN_EMPTYKEY.search(texts[j]):
+                if gfin != "OK" or g != exp:
+                    failing.append((j, parts, g, gfin, exp))
+                    continue
+                if b == "str" and sum(interesting(i) for i in parts) >= 2:
+                    res.nontrivial.add(texts[j])
+            # Failures: is the whole misbehaviour explained by the recorded flag leak?  The scanner's flow_mapping_started
+            # flag is set by '{' and by an explicit key '?' in flow context and survives the document.  A later document is
+            # then read as it is read behind the one-document prefix "{}".  The failure is the KNOWN class iff an earlier
+            # part contains such a setter and the concatenation's events are exactly the parts' events with one or more of
+            # the later parts in their "behind {}" reading; anything else is a VIOLATION.
+            need = sorted(set(i for (_, parts, _, _, _) in failing for i in parts[1:]))
+            flagged = {}
+            if need and known:
+                fl = run_hx(["events", b], [enc("{}\n...\n" + cases[i]) for i in need])
+                for i, line in zip(need, fl):
+                    evs, fin = split_line(line)
+                    flagged[i] = (evs[5:] if fin != "OK" else evs[5:-1], fin)      # drop SS and the four events of "{}"
+            for (j, parts, g, gfin, exp) in failing:
+                explained = False
+                if known and KNOWN_SETTER.search(texts[j]):
+                    import itertools
+                    for choice in itertools.product((False, True), repeat=len(parts) - 1):
+                        if not any(choice):
+                            continue
+                        cand, off, cfin = ["SS"], 0, "OK"
+                        for pos, i in enumerate(parts):
+                            if pos > 0 and choice[pos - 1]:
+                                inner, fin = flagged[i]
+                            else:
+                                inner, fin = split_line(single[i])[0][1:-1], "OK"
+                            cand += [ev_body_renum(e, off) for e in inner]
+                            off += max_anchor(inner)
+                            if fin != "OK":
+                                cfin = fin
+                                break
+                        if cfin == "OK":
+                            cand.append("SE")
+                        msg = lambda f: f.split("#", 1)[-1]
+                        if cand == g and msg(cfin) == msg(gfin):
+                            explained = True
+                            break
+                if explained:
                     kf.add("%s: %s" % (known[0]["class"], known[0]["what"]))
-                elif gfin != "OK" or g != exp:
+                else:
                     res.add_violation("concatenation with document-end marker lines does not parse to the documents of the parts (%s)" % b,
                                       dict(input=texts[j], codepoints=tl[j], parts=[cases[i] for i in parts], backend=b),
                                       got=";".join(g)[-600:] + "|" + gfin, expected=";".join(exp)[-600:])
-                elif b == "str" and sum(interesting(i) for i in parts) >= 2:
-                    res.nontrivial.add(texts[j])
         # through the loading interface: no anchor of an earlier document resolves in a later one
         probes = []
         for i in hot[:300]:
